@@ -97,9 +97,9 @@ class Rig:
     def crash(self, obj):
         """Process death: sockets vanish, nothing is said."""
         if obj is self.S:
-            for s in self.S.pulls + self.S.pubs: s.close()
+            for s in self.S.pulls + self.S.pubs: s.crash()
         else:
-            for snd in self.R.senders.values(): snd.sub.close(); snd.push.close()
+            for snd in self.R.senders.values(): snd.sub.crash(); snd.push.crash()
         self.Z.ZMQContext.free()
 
     def event(self, ev):
@@ -130,13 +130,15 @@ class Rig:
             if ev['g']: self.R.destroy()
             else: self.crash(self.R)
             self.gen += 1
-            self.new_con()
             obs = {'k': 'restarted'}
+            try: self.new_con()
+            except Exception as e: obs = {'k': 'restart-failed', 'err': f'{type(e).__name__}: {e}'[:160]}      # the endpoint stays dead
         elif k == 'rp':
             if ev['g']: self.S.destroy()
             else: self.crash(self.S)
-            self.new_pub()
             obs = {'k': 'restarted'}
+            try: self.new_pub()
+            except Exception as e: obs = {'k': 'restart-failed', 'err': f'{type(e).__name__}: {e}'[:160]}      # the endpoint stays dead
         elif k == 'eph':      # the ephemeral client's PUSH socket delivers a request envelope to the publisher's PULL socket
             env = {'cid': 'E', 'uid': ev['uid'], 'mid': ev['mid'], 'eph': ev['eph'] + 1}
             if ev['new']: env['new'] = True
